@@ -272,6 +272,82 @@ def run_natural(rng, out, orc, known):
                 break
 
 
+def run_linked(rng, out, orc, known):
+    """a function and a linked variant (`Ovld(mixins=[f], linkback=True)`), both in use; a rebuild of the function
+    fails (invalid method); the offending method is removed and one more valid method is registered: at every stage
+    the variant, through both routes, either reports a configuration error or answers like a brand-new function
+    over the complete set of valid methods it derives from (its own method included)"""
+    from ovld import Ovld
+
+    kind = rng.choice(["names", "positions", "call_next", "nosource", "hook"])
+    k = rng.randint(2, 4)
+    sseed = rng.randrange(2**31)
+    sc = Scenario(random.Random(sseed), k, kind, 0)
+    probes = sc.probes()
+    wit = {"kind": "build-linked", "bad_kind": kind, "k": k, "sseed": sseed}
+    hook = kind == "hook"
+    own = k >= 3 and rng.random() < 0.5
+    spare = k - 1
+    first = [t for t in range(k) if t != spare and not (own and t == 0)]
+    parent = sc.build(first)
+    child = Ovld(mixins=[parent], linkback=True)
+    if own:
+        child.register(sc.fns[0])
+    for r in ("obj", "fn"):
+        for p in probes:
+            call(child, p, r)
+            call(parent, p, r)
+    o = orc("C18")
+
+    # calling the variant through the Ovld object re-checks its built flag (and so repairs a stale one): in half of
+    # the runs the variant is used through its entry-point function only, in half it is left alone until the end
+    child_routes = rng.choice([("obj", "fn"), ("fn",), ("fn",)])
+    child_quiet = rng.random() < 0.5
+
+    def stage(label, ptags, with_bad=False, last=False):
+        ctags = ptags + ([0] if own else [])
+        for ov, tags, who in ((parent, ptags, "function"), (child, ctags, "linked variant")):
+            if ov is child and child_quiet and not last:
+                continue
+            ref = reference(sc, tags, probes, False)
+            # the offending method, while registered, may be part of the answer when it can be built at all (a
+            # method whose type hook raised during the build is a valid method once the hook works)
+            ref_bad = reference(sc, tags + ["bad"], probes, False) if with_bad else ref
+            for r in (child_routes if ov is child else ("obj", "fn")):
+                o["n"] += 1
+                o["nontrivial"] += 1
+                for p_i, p in enumerate(probes):
+                    a = call(ov, p, r)
+                    if cfg_error(a):
+                        continue
+                    if not same(a, ref[p_i]) and not same(a, ref_bad[p_i]):
+                        o["viol"].append({"law": f"after a failed rebuild ({label}) the {who} neither reports a configuration error nor answers over the complete set of registered methods",
+                                          "route": r, "probe": p_i, "got": a, "fresh": ref[p_i], **wit})
+                        return False
+        return True
+
+    sc.raise_flag[0] = hook
+    try:
+        parent.register(sc.bad)
+    except BaseException:
+        pass
+    ok = stage("offending method still registered", list(first), with_bad=sc.bad in parent.defns.values())
+    sc.raise_flag[0] = False
+    if sc.bad in parent.defns.values():
+        try:
+            parent.unregister(sc.bad)
+        except BaseException:
+            pass
+    ok = ok and stage("offending method removed", list(first))
+    try:
+        parent.register(sc.fns[spare])
+    except BaseException as e:  # noqa
+        o["viol"].append({"law": "a valid method cannot be registered after the offending one was removed", "error": str(e)[:80], **wit})
+        return
+    if ok:
+        stage("offending method removed, another method registered", list(first) + [spare], last=True)
+
+
 def run_injected(rng, out, orc, known, nmax, fixed_n=None, fixed_mode=None, sseed=None):
     k = rng.randint(1, 3)
     sc = Scenario(random.Random(sseed) if sseed is not None else rng, k, None, 0)
@@ -436,7 +512,10 @@ def worker(payload):
                     line += 1
     for i in range(n):
         out["ops"] += 1
-        if i % 2 == 0:
+        if i % 6 == 4:
+            run_linked(rng, out, orc, known)
+            out["hist"]["natural faults with a linked variant in use"] = out["hist"].get("natural faults with a linked variant in use", 0) + 1
+        elif i % 2 == 0:
             run_natural(rng, out, orc, known)
             out["hist"]["natural faults"] = out["hist"].get("natural faults", 0) + 1
         else:
